@@ -2,6 +2,7 @@ mod capture;
 mod cart;
 mod case;
 mod cov;
+mod diag;
 mod driver;
 mod machine;
 mod model;
@@ -30,6 +31,7 @@ fn main() {
             println!("{}", serde_json::to_string_pretty(&case.to_json()).unwrap());
             0
         }
+        Some("diag") if args.len() >= 2 && args[1] == "cycles" => diag::cycles_table(),
         Some("selftest") if args.len() >= 5 && args[1] == "determinism" => driver::selftest_determinism(&args[2], &args[3], args[4].parse().unwrap_or(1000)),
         _ => usage(),
     };
